@@ -28,7 +28,7 @@ def run_impl(case):
     aw = max(1, (cur - 1).bit_length()) + rnd.randint(0, 2)
     dut = gpio.Peripheral(pin_count=n, addr_width=aw, data_width=dw, input_stages=stages)
     real = {tuple(i.path[0])[0]: (i.start, i.end) for i in dut.bus.memory_map.all_resources()}
-    sim = Simulator(simutil.wrap(dut))
+    sim = simutil.simulator(simutil.wrap(dut), case)
     sim.add_clock(1e-6)
     lines = [f"case {n} {dw} {stages}"]
     obs = ["layout " + " ".join(f"{real[k][0]}-{real[k][1]}" for k in ("Mode", "Input", "Output", "SetClr"))]
